@@ -19,13 +19,10 @@ import (
 	"bytes"
 	"errors"
 	"fmt"
-	"go/ast"
-	"go/parser"
-	"go/token"
 	"io"
-	"path/filepath"
 	"strconv"
 	"strings"
+	"time"
 
 	"golang.org/x/text/transform"
 	"mellium.im/xmpp/jid"
@@ -393,10 +390,16 @@ func Run(r *common.Run) error {
 		if err != nil {
 			return err
 		}
+		var replayInputs [][]byte
 		for _, l := range lines {
 			f := strings.Fields(l)
 			if len(f) < 3 || f[0] != "C16" {
 				continue
+			}
+			if k := map[string]int{"estr": 2, "ustr": 2, "espan": 2, "uspan": 2, "estep": 3, "ustep": 3}[f[1]]; k > 0 && k < len(f) {
+				if b, err := common.UnHex(f[k]); err == nil && len(replayInputs) < 16 {
+					replayInputs = append(replayInputs, b)
+				}
 			}
 			switch f[1] {
 			case "estr", "ustr":
@@ -415,6 +418,14 @@ func Run(r *common.Run) error {
 				c.steps(s, []int{4})
 			}
 		}
+		// the inputs of the replay side by side on the shared package-level values
+		c.concurrent(replayInputs, 200000, 3*time.Second, "replay-concurrent")
+		return nil
+	}
+	if r.Race() {
+		// race tier: only the concurrent scenario (the detector reports any unsynchronised
+		// access to memory shared through the package-level values)
+		c.concurrent(concInputs(), 2000, 20*time.Second, "concurrent")
 		return nil
 	}
 
@@ -428,6 +439,9 @@ func Run(r *common.Run) error {
 	long := bytes.Repeat([]byte("ab c"), 70)
 	c.whole(long, []int{5}, 4, "corpus-long")
 	c.whole([]byte(jid.Escape.String(string(long))), []int{5}, 4, "corpus-long")
+
+	// the package-level values used by many goroutines at once (one per escapable byte)
+	c.concurrent(concInputs(), r.Pick(20000, 100000), time.Duration(r.Pick(2, 8))*time.Second, "concurrent")
 
 	// boundary structure: a long prefix WITHOUT anything to transform, then the first escapable
 	// character / escape sequence exactly around the internal buffer sizes of x/text/transform
@@ -497,45 +511,43 @@ func Run(r *common.Run) error {
 	return nil
 }
 
-// Facts regenerates lean/XmppModel/Generated/C16.lean from the source: the
-// escape-set constant (read from the AST of jid/escape.go) and the table of
-// escape codes the real Unescape rewrites (evaluated on all 2^16 byte pairs
-// through the exported API).
+// Facts regenerates lean/XmppModel/Generated/C16.lean.  Every fact is a *probe*: the real
+// code is run on a complete finite domain through the exported API and the resulting table is
+// emitted, so the facts do not depend on how jid/escape.go is written (names of constants,
+// helpers, switch or if), only on what it computes:
+//
+//	escapeSet / escapeTable  jid.Escape on each of the 256 one-byte strings
+//	unescapeTable            jid.Unescape on `\\ab` for all 65536 byte pairs (a, b)
+//	sharedStateWrites        deep snapshot of everything reachable from the two package-level
+//	                         values before and after a battery of calls (state.go)
 func Facts(repo string) (string, error) {
-	fset := token.NewFileSet()
-	f, err := parser.ParseFile(fset, filepath.Join(repo, "jid", "escape.go"), nil, 0)
-	if err != nil {
-		return "", err
-	}
-	set := ""
-	found := false
-	ast.Inspect(f, func(n ast.Node) bool {
-		vs, ok := n.(*ast.ValueSpec)
-		if !ok {
-			return true
-		}
-		for i, name := range vs.Names {
-			if name.Name == "escape" && i < len(vs.Values) {
-				if bl, ok := vs.Values[i].(*ast.BasicLit); ok && bl.Kind == token.STRING {
-					if s, err := strconv.Unquote(bl.Value); err == nil {
-						set, found = s, true
-					}
-				}
-			}
-		}
-		return true
-	})
 	var sb strings.Builder
-	sb.WriteString("-- GENERATED by `harness facts C16` from jid/escape.go; do not edit.\n")
+	sb.WriteString("-- GENERATED by `harness facts C16` by running the real jid.Escape / jid.Unescape; do not edit.\n")
 	sb.WriteString("namespace XmppModel.Generated.C16\n\n")
-	if found {
-		var el []string
-		for _, c := range []byte(set) {
+	var el, et []string
+	okE := true
+	for c := 0; c < 256; c++ {
+		in := []byte{byte(c)}
+		out, err := safe(func() ([]byte, error) { return jid.Escape.Bytes(append([]byte(nil), in...)), nil })
+		out2, err2 := safe(func() ([]byte, error) { return []byte(jid.Escape.String(string(in))), nil })
+		switch {
+		case err != nil || err2 != nil || !bytes.Equal(out, out2):
+			okE = false
+		case bytes.Equal(out, in):
+		default:
 			el = append(el, fmt.Sprintf("0x%02x", c))
+			var ol []string
+			for _, o := range out {
+				ol = append(ol, fmt.Sprintf("0x%02x", o))
+			}
+			et = append(et, fmt.Sprintf("(0x%02x, [%s])", c, strings.Join(ol, ", ")))
 		}
-		fmt.Fprintf(&sb, "/-- `const escape` of jid/escape.go -/\ndef escapeSet : Option (List UInt8) := some [%s]\n\n", strings.Join(el, ", "))
+	}
+	if okE {
+		fmt.Fprintf(&sb, "/-- the bytes `jid.Escape` rewrites (each of the 256 one-byte strings evaluated), ascending -/\ndef escapeSet : Option (List UInt8) := some [%s]\n\n", strings.Join(el, ", "))
+		fmt.Fprintf(&sb, "/-- … with what it writes for them -/\ndef escapeTable : Option (List (UInt8 × List UInt8)) := some [\n  %s]\n\n", strings.Join(et, ",\n  "))
 	} else {
-		sb.WriteString("def escapeSet : Option (List UInt8) := none\n\n")
+		sb.WriteString("def escapeSet : Option (List UInt8) := none\n\ndef escapeTable : Option (List (UInt8 × List UInt8)) := none\n\n")
 	}
 	var tl []string
 	bad := false
@@ -559,6 +571,24 @@ func Facts(repo string) (string, error) {
 	} else {
 		fmt.Fprintf(&sb, "/-- every pair (a,b) for which the real `jid.Unescape` rewrites `\\\\ab`, with the byte produced\n(all 65536 pairs evaluated) -/\ndef unescapeTable : Option (List (UInt8 × UInt8 × UInt8)) := some [\n  %s]\n", strings.Join(tl, ",\n  "))
 	}
+	we, be, ae, me := stateWrites(jid.Escape)
+	wu, bu, au, mu := stateWrites(jid.Unescape)
+	fmt.Fprintf(&sb, "\n/-- 0 = a battery of calls through every interface left everything reachable from the package-level\nvalue unchanged; [jid.Escape, jid.Unescape].  Reachable plain data: %d and %d bytes. -/\n", me, mu)
+	fmt.Fprintf(&sb, "def sharedStateWrites : Option (List Nat) := some [%d, %d]\n", we, wu)
+	if we != 0 {
+		fmt.Fprintf(&sb, "-- jid.Escape before: %s\n-- jid.Escape after:  %s\n", oneLine(be), oneLine(ae))
+	}
+	if wu != 0 {
+		fmt.Fprintf(&sb, "-- jid.Unescape before: %s\n-- jid.Unescape after:  %s\n", oneLine(bu), oneLine(au))
+	}
 	sb.WriteString("\nend XmppModel.Generated.C16\n")
 	return sb.String(), nil
+}
+
+func oneLine(s string) string {
+	s = strings.NewReplacer("\n", " ", "\r", " ").Replace(s)
+	if len(s) > 400 {
+		s = s[:400] + "…"
+	}
+	return s
 }
